@@ -14,6 +14,6 @@ git -C "$wt" apply "$sd/patch.diff" || { echo "RESULT patch-does-not-apply"; exi
 tests=$(cd "$wt" && PYTHONPATH="$wt/src" PYTHONDONTWRITEBYTECODE=1 /venv/bin/python -m pytest -q -p no:cacheprovider --timeout=900 2>&1 | tail -1)
 broken=$(run_demo)
 echo "demo clean=$clean patched=$broken tests: $tests"
-out=$(VERIF_REPO="$wt" VERIF_OUT="$wt/.verif-out" "$here/vcheck" "$prop" --tier "$tier" 2>&1 | grep -E "VIOLATION|mechanism=|INCONCLUSIVE|: (held|violated|inconclusive)" | cut -c1-300)
+out=$(VERIF_REPO="$wt" VERIF_OUT="$wt/.verif-out" "$here/vcheck" "$prop" --tier "$tier" 2>&1 | grep -a -E "VIOLATION|mechanism=|INCONCLUSIVE|: (held|violated|inconclusive)" | cut -c1-300)
 echo "$out" | head -6
 if echo "$out" | grep -q "^VIOLATION"; then echo "RESULT detected"; else echo "RESULT MISSED"; fi
